@@ -32,7 +32,10 @@
   … and nothing panics                                STILL FALSE (open finding F43: a send concurrent
                                                         with Close): no_panic_full_fails (witness),
                                                         no_panic_partial (the only panic left is a send
-                                                        on the channel Close() has closed)
+                                                        on the channel Close() has closed), delimited
+                                                        exactly by f43_exact (iff),
+                                                        f43_every_send_after_close, f43_progressive_sender,
+                                                        f43_blocked_sender
   Done() signalled once, on GOODBYE/ABORT/transport   done_signalled, session_end_closes_done,
     end                                                 goodbye_abort_end_session
 
@@ -45,6 +48,7 @@
 import Nexus.Client.PptLemmas
 import Nexus.Client.RendezvousAll
 import Nexus.Client.InvokeProps
+import Nexus.Client.ProgressiveProps
 
 namespace Nexus.C17
 open Nexus.Client Nexus.Gen
@@ -240,6 +244,44 @@ theorem no_panic_partial (st : R.State) (hr : R.Reachable R.cfgToday st) (s : St
   have hi := R.invClose_reachable R.cfgToday R.today_ppt R.today_abort st hr
   obtain ⟨h1, h2⟩ := hi.2 s h
   exact ⟨h1, h2, hi.1 h2⟩
+
+/-- F43 delimited by a theorem instead of an assumption. In the model a goroutine blocked in a send
+    (a router that has stopped reading) is a goroutine whose sending event has not been taken yet, so
+    a non-draining router only removes schedules; whenever the event is finally taken after `Close()`
+    closed the channel — whether the goroutine was blocked in the send or arrives at it — it panics.
+    EXACTLY: a run of today's client ends in a panic if and only if its last event was taken in an
+    uncrashed state in which `Close()` had returned and closed the send channel and that event is
+    such a send; the panic changes nothing else, and nothing can follow it. -/
+theorem f43_exact (evs : List R.Ev) (st : R.State) (h : R.steps R.cfgToday {} evs = some st) :
+    st.crashed.isSome = true ↔
+    ∃ pre ev st1, evs = pre ++ [ev] ∧ R.steps R.cfgToday {} pre = some st1 ∧ st1.crashed = none ∧
+      st1.close = .returned ∧ st1.sendClosed = true ∧
+      R.step R.cfgToday st1 ev = some { st1 with crashed := some "send on closed channel" } ∧
+      st = { st1 with crashed := some "send on closed channel" } :=
+  R.crash_iff R.cfgToday R.today_ppt R.today_abort evs st h
+
+/-- … and every send after `Close()` has closed the channel is such an event, whichever goroutine
+    performs it (the request of an API call that passed its `Connected()` check, the CANCEL of a
+    Call, …). -/
+theorem f43_every_send_after_close (st st2 : R.State) (ev : R.Ev) (hc : st.crashed = none)
+    (hsc : st.sendClosed = true) (h : R.stepCore R.cfgToday st ev = some st2) (hs : R.sentSomething st st2 = true) :
+    R.step R.cfgToday st ev = some { st with crashed := some "send on closed channel" } :=
+  R.send_after_close_panics R.cfgToday st st2 ev hc hsc h hs
+
+/-- One more instance: the sender goroutine of a `CallProgressive`, which watches neither the call's
+    return nor Done, sends its next chunk after `Close()` (explicit non-draining router: `P.State.stalled`;
+    a blocked sender panics when the channel is closed under it). -/
+theorem f43_progressive_sender :
+    (RP.steps {} {} RP.senderAfterClose).map (fun st => (st.r.close, st.p.crashed)) =
+      some (.returned, some "send on closed channel") := by decide
+
+/-- A sender blocked by a router that does not read takes no step until the router reads again or
+    the channel is closed; then it panics. -/
+theorem f43_blocked_sender (cfg : P.Cfg) (st : P.State) (g : Nat) (hc : st.crashed = none)
+    (hph : (st.ss g).phase = .sendingChunk true) (hst : st.stalled = true) :
+    (st.sendClosed = false → P.step cfg st (.sendDone g) = none) ∧
+    (st.sendClosed = true → P.step cfg st (.sendDone g) = some { st with crashed := some "send on closed channel" }) := by
+  constructor <;> intro h <;> simp [P.step, hc, hph, hst, h]
 
 /-- Non-vacuity: a reachable crashed state exists (the F43 witness). -/
 example : ((R.steps R.cfgToday {} Witness.closeRace).map fun st => st.crashed.isSome && st.sendClosed) = some true := by
